@@ -35,10 +35,11 @@ type dpState struct {
 	single  map[string]string // singleton messages (Encapsulation, ConfigUpdate, ...)
 	monitor []string          // stream-wellformedness problems (reported separately; C02's concern)
 	msgs    int
+	proj    *projection // the part of the state the Lean model describes
 }
 
 func newDP() *dpState {
-	return &dpState{objs: map[string]string{}, ipsets: map[string]map[string]bool{}, ipsetTy: map[string]string{}, single: map[string]string{}}
+	return &dpState{objs: map[string]string{}, ipsets: map[string]map[string]bool{}, ipsetTy: map[string]string{}, single: map[string]string{}, proj: newProjection()}
 }
 
 var txt = prototext.MarshalOptions{Multiline: false}
@@ -73,6 +74,7 @@ func keyOf(m protoreflect.Message) string {
 
 func (d *dpState) onMsg(ev any) {
 	d.msgs++
+	d.proj.onMsg(ev)
 	switch m := ev.(type) {
 	case *proto.InSync:
 		d.inSync = true
@@ -208,6 +210,8 @@ type runState struct {
 	cur     map[string]int // key name -> current variant in the datastore
 	insync  bool
 	history []string
+
+	lastCompared int
 }
 
 var universe = buildUniverse()
@@ -223,7 +227,7 @@ func exec(h *rt.H, s *runState, op string) string {
 	w := strings.Fields(op)
 	switch w[0] {
 	case "new":
-		// new <vxlan> <ipip> <bpf> <routeSource>
+		// new <vxlan> <ipip> <bpf> <routeSource> <overlap-suppression> <ipset id table>   (the last two are for the model)
 		s.cv = cfgVariant{vxlan: w[1] == "1", ipip: w[2] == "1", bpf: w[3] == "1", routeSource: w[4]}
 		s.g = newGraph(s.cv)
 		s.cur = map[string]int{}
@@ -252,7 +256,7 @@ func exec(h *rt.H, s *runState, op string) string {
 		return "ok"
 	case "flush":
 		s.g.flush()
-		return "ok " + strconv.Itoa(len(s.g.dp.objs)) + " " + strconv.Itoa(len(s.g.dp.ipsets))
+		return "ok " + s.g.dp.proj.render(s.g.dp)
 	case "dump":
 		s.g.flush()
 		return strings.Join(s.g.dp.lines(), " ;; ")
@@ -286,7 +290,8 @@ func exec(h *rt.H, s *runState, op string) string {
 		if len(s.g.dp.monitor) > 0 {
 			h.Count("monitor:" + strings.Fields(s.g.dp.monitor[0])[0])
 		}
-		return "same " + strconv.Itoa(len(a))
+		s.lastCompared = len(a)
+		return "same " + s.g.dp.proj.render(s.g.dp)
 	}
 	panic("unknown op " + op)
 }
@@ -327,7 +332,7 @@ func genCase(h *rt.H) []string {
 		return "0"
 	}
 	rsrc := rt.Pick(h, []string{"CalicoIPAM", "CalicoIPAM", "WorkloadIPs"})
-	ops := []string{fmt.Sprintf("new %s %s %s %s", b(h.Chance(0.7)), b(h.Chance(0.3)), b(h.Chance(0.3)), rsrc)}
+	ops := []string{fmt.Sprintf("new %s %s %s %s %s %s", b(h.Chance(0.7)), b(h.Chance(0.3)), b(h.Chance(0.3)), rsrc, b(config.New().NFTablesMode != "Disabled"), idTableToken())}
 	// focus each case on a random sub-universe so that keys are revisited often
 	var focus []*entry
 	for _, e := range universe {
@@ -357,7 +362,7 @@ func genCase(h *rt.H) []string {
 			v = h.Intn(len(e.variants))
 		}
 		last[e.name] = v
-		ops = append(ops, fmt.Sprintf("kv %s %d", e.name, v))
+		ops = append(ops, fmt.Sprintf("kv %s %d %s", e.name, v, descr[e.name][v]))
 		switch flushMode {
 		case 0:
 			ops = append(ops, "flush")
@@ -384,6 +389,7 @@ func genCase(h *rt.H) []string {
 func main() {
 	h := rt.New()
 	defer h.Close()
+	precompute()
 	h.Rule = fmt.Sprintf("case = one Felix config (vxlan/ipip/bpf/route source) + a history of 5..49 KV updates over a focused sub-universe of %d keys "+
 		"(2 local + 2 remote WEPs, 2 HEPs, 3 profiles (rules+labels), 3 tiers, 4 policies incl. staged/untracked/preDNAT, 2 network sets, 2 pools, 2 blocks, 3 nodes, host IP, VTEP config; "+
 		"each with 2..6 value variants incl. INVALID ones, deletes, duplicates, reverts), in-sync at a random point, flush strategy in {every update, random, batches, only at end}; "+
@@ -404,7 +410,7 @@ func main() {
 			h.Count(fmt.Sprintf("final-objs:%02d+", len(s.g.dp.objs)/10*10))
 			h.Count(fmt.Sprintf("final-ipsets:%d", min(len(s.g.dp.ipsets), 9)))
 			if strings.HasPrefix(lastOut, "same") {
-				n, _ := strconv.Atoi(strings.Fields(lastOut)[1])
+				n := s.lastCompared
 				if n >= 10 && len(s.g.dp.ipsets) > 0 {
 					h.Nontrivial(strings.Join(ops, ";"))
 				}
